@@ -566,6 +566,154 @@ theorem Pair.run_ok {p : Pair} (cs : List PCmd) (h : p.Ok) : (p.run cs).Ok := by
   | nil => exact h
   | cons c t ih => exact ih (Pair.step_ok c h)
 
+/-! ### the register machine (any number of live sketches, copies next to their sources) -/
+
+def Sk.Ok : Sk → Prop
+  | .v x => VOk x
+  | .t x => TOk x
+
+/-- every register's cache is empty or the digest of that register's own contents -/
+def RegsOk (rs : List Sk) : Prop := ∀ s ∈ rs, s.Ok
+
+theorem RegsOk.set {rs : List Sk} {s : Sk} (i : Nat) (h : RegsOk rs) (hs : s.Ok) : RegsOk (rs.set i s) := by
+  intro x hx
+  rcases List.mem_or_eq_of_mem_set hx with h' | h'
+  · exact h x h'
+  · exact h' ▸ hs
+
+theorem RegsOk.setV {rs : List Sk} {x : Vec} (i : Nat) (h : RegsOk rs) (hs : VOk x) : RegsOk (rs.set i (.v x)) :=
+  h.set i hs
+
+theorem RegsOk.setT {rs : List Sk} {x : Tree} (i : Nat) (h : RegsOk rs) (hs : TOk x) : RegsOk (rs.set i (.t x)) :=
+  h.set i hs
+
+theorem RegsOk.get {rs : List Sk} {s : Sk} {i : Nat} (h : RegsOk rs) (e : rs[i]? = some s) : s.Ok :=
+  h s (List.mem_of_getElem? e)
+
+theorem Sk.clone_ok {s : Sk} (h : s.Ok) : s.clone.1.Ok ∧ s.clone.2.Ok := by
+  cases s with
+  | v x => exact ⟨(Vec.clone_spec h).2.2.2.1, (Vec.clone_spec h).2.2.2.2.1⟩
+  | t x => exact ⟨(Tree.clone_spec h).2.2.2.1, (Tree.clone_spec h).2.2.2.2.1⟩
+
+theorem Sk.serde_ok {s : Sk} (h : s.Ok) : s.serde.1.Ok ∧ s.serde.2.Ok := by
+  cases s with
+  | v x => exact ⟨(Vec.serde_spec h).2.2.2.1, (Vec.serde_spec h).2.2.2.2⟩
+  | t x => exact ⟨(Tree.serde_spec h).2.2.2.1, (Tree.serde_spec h).2.2.2.2⟩
+
+theorem Sk.conv_ok (s : Sk) : s.conv.Ok := by
+  cases s with
+  | v x => exact TOk.ofVec x
+  | t x => exact VOk.ofTree x
+
+theorem Sk.md5sum_spec {s : Sk} (h : s.Ok) :
+    s.md5sum.1 = Md5.digest s.ksize s.mins ∧ s.md5sum.2.Ok ∧ s.md5sum.2.mins = s.mins
+      ∧ s.md5sum.2.ksize = s.ksize := by
+  cases s with
+  | v x => exact ⟨(Vec.md5sum_spec h).1, VOk.md5sum h, (Vec.md5sum_spec h).2.2.1, (Vec.md5sum_spec h).2.2.2.1⟩
+  | t x => exact ⟨(Tree.md5sum_spec h).1, TOk.md5sum h, (Tree.md5sum_spec h).2.2.1, (Tree.md5sum_spec h).2.2.2.1⟩
+
+/-- a copy holds its source's ksize and hashes at the moment it is taken -/
+theorem Sk.clone_same (s : Sk) : s.clone.1.mins = s.mins ∧ s.clone.1.ksize = s.ksize := by
+  cases s <;> exact ⟨rfl, rfl⟩
+
+theorem Sk.serde_same (s : Sk) : s.serde.1.mins = s.mins ∧ s.serde.1.ksize = s.ksize := by
+  cases s <;> exact ⟨rfl, rfl⟩
+
+theorem Sk.conv_same (s : Sk) : s.conv.mins = s.mins ∧ s.conv.ksize = s.ksize := by
+  cases s <;> exact ⟨rfl, rfl⟩
+
+/-- one command keeps every register consistent -/
+theorem regsStep_ok {rs : List Sk} (c : RCmd) (h : RegsOk rs) : RegsOk (regsStep rs c).1 := by
+  cases c with
+  | on i j op =>
+    simp only [regsStep]
+    split
+    · exact h
+    · split
+      · next t s hi hj =>
+        have := vecOp_ok op (t := t) (s := s) (h.get hi) (h.get hj)
+        exact (h.setV i this.1).setV j this.2
+      · next t s hi hj =>
+        have := treeOp_ok op (t := t) (s := s) (h.get hi) (h.get hj)
+        exact (h.setT i this.1).setT j this.2
+      · next t s hi hj =>
+        split
+        · exact h
+        · exact h.setV i (vecOp_ok op (t := t) (s := t) (h.get hi) (h.get hi)).1
+      · next t s hi hj =>
+        split
+        · exact h
+        · exact h.setT i (treeOp_ok op (t := t) (s := t) (h.get hi) (h.get hi)).1
+      · exact h
+  | eq i j =>
+    simp only [regsStep]
+    split
+    · exact h
+    · split
+      · next a b hi hj =>
+        have := Vec.eq_spec (s := a) (o := b) (h.get hi) (h.get hj)
+        exact (h.setV i this.2.1).setV j this.2.2.1
+      · next a b hi hj =>
+        have := Tree.eq_spec (s := a) (o := b) (h.get hi) (h.get hj)
+        exact (h.setT i this.2.1).setT j this.2.2.1
+      · exact h
+  | dup i j =>
+    simp only [regsStep]
+    split
+    · exact h
+    · split
+      · next s hi => exact (h.set i (Sk.clone_ok (h.get hi)).2).set j (Sk.clone_ok (h.get hi)).1
+      · exact h
+  | serdeTo i j =>
+    simp only [regsStep]
+    split
+    · exact h
+    · split
+      · next s hi => exact (h.set i (Sk.serde_ok (h.get hi)).2).set j (Sk.serde_ok (h.get hi)).1
+      · exact h
+  | convTo i j c =>
+    simp only [regsStep]
+    split
+    · exact h
+    · split
+      · next s hi =>
+        split
+        · exact (h.set i (Sk.clone_ok (h.get hi)).2).set j (Sk.conv_ok _)
+        · split
+          · exact h.set j (Sk.conv_ok _)
+          · exact h
+      · exact h
+  | conv i =>
+    simp only [regsStep]
+    split
+    · exact h.set i (Sk.conv_ok _)
+    · exact h
+
+theorem regsRun_ok {rs : List Sk} (cs : List RCmd) (h : RegsOk rs) : RegsOk (regsRun rs cs) := by
+  unfold regsRun
+  induction cs generalizing rs with
+  | nil => exact h
+  | cons c t ih => exact ih (regsStep_ok c h)
+
+/-- frame: a command on registers `i` and `j` leaves every other register exactly as it was
+    (hashes AND cache) — in particular a copy is not touched by what happens to its source, nor
+    the source by what happens to the copy -/
+theorem regsStep_frame {rs : List Sk} (i j k : Nat) (op : Op) (hi : k ≠ i) (hj : k ≠ j) :
+    (regsStep rs (.on i j op)).1[k]? = rs[k]? := by
+  simp only [regsStep]
+  split
+  · rfl
+  · split
+    · rw [List.getElem?_set_ne (Ne.symm hj), List.getElem?_set_ne (Ne.symm hi)]
+    · rw [List.getElem?_set_ne (Ne.symm hj), List.getElem?_set_ne (Ne.symm hi)]
+    · split
+      · rfl
+      · rw [List.getElem?_set_ne (Ne.symm hi)]
+    · split
+      · rfl
+      · rw [List.getElem?_set_ne (Ne.symm hi)]
+    · rfl
+
 end Md5Cache
 
 /-! ### the ksize is part of the digested bytes -/
